@@ -109,12 +109,14 @@ pub fn random_robot(rng: &mut Rng, idx: u64, with_cons: bool, around: Option<&Jo
 /// Non-singularity margins of C02 computed from the model angles (oracle side).
 pub fn nonsingular(r: &Robot, j: &Joints) -> bool { nonsingular_w(r, j, 0.02) }
 /// the same with an explicit wrist margin on |sin q5|
-pub fn nonsingular_w(r: &Robot, j: &Joints, wrist: f64) -> bool {
+pub fn nonsingular_w(r: &Robot, j: &Joints, wrist: f64) -> bool { nonsingular_we(r, j, wrist, 0.02) }
+/// ... and an explicit elbow margin on |sin(q3 + psi3)| (0 = stretched, pi = folded)
+pub fn nonsingular_we(r: &Robot, j: &Joints, wrist: f64, elbow: f64) -> bool {
     let q = r.to_model(j);
     let p = &r.p;
     if q[4].sin().abs() < wrist { return false; }
     let psi3 = f64::atan2(p.a2, p.c3);
-    if (q[2] + psi3).sin().abs() < 0.02 { return false; }       // elbow
+    if (q[2] + psi3).sin().abs() < elbow { return false; }       // elbow
     let k = (p.a2 * p.a2 + p.c3 * p.c3).sqrt();
     if k < 0.05 || p.c2.abs() < 0.05 { return false; }
     // shoulder: wrist centre away from the J1 axis (and from the b-circle)
